@@ -17,6 +17,9 @@ import Driver.Perm
 import Driver.Fl
 import Driver.Conv
 import Driver.Core
+import Driver.Scope
+import Driver.Typing
+import Driver.Parse
 open XrayDriver
 
 def step (line : String) : String :=
@@ -35,6 +38,9 @@ def step (line : String) : String :=
   | "fl" :: f :: args => flEngine f args
   | "conv" :: f :: args => convEngine f args
   | "core" :: f :: args => coreEngine f args
+  | "scope" :: f :: args => scopeEngine f args
+  | "typing" :: f :: args => typingEngine f args
+  | "parse" :: f :: args => parseEngine f args
   | _ => "bad-op"
 
 partial def loop (h : IO.FS.Stream) (out : IO.FS.Stream) : IO Unit := do
